@@ -437,8 +437,9 @@ def run(chk: Check):
     from .c08 import rule_l1, rule_l4
     rule_l1(chk, ix)   # positions are part of the agreement with CPython's tokens
     rule_l4(chk, ix)
-    from .c08 import rule_l5
+    from .c08 import rule_l5, rule_l2
     rule_l5(chk, ix)
+    rule_l2(chk, ix)   # text buffered over several lines reaches the token stream (FSTRING_MIDDLE / STRING) whole
     chk.floor("K1-sublanguage", 3)
     chk.floor("K1-string-body", 5)
     chk.floor("K3-non-interference", 10)
